@@ -611,7 +611,9 @@ def inline_new_helpers(tree: ast.Module, ref_funcs: Set[str], ref_calls: Optiona
         helpers = dict(new_only)
         if ref_calls is not None and q in ref_calls:
             for nm_, rec_ in old_helpers.items():
-                if nm_ != q and nm_ not in ref_calls[q] and nm_ not in helpers:
+                # single-exit callees only: delegation to a sibling with several returns (the 3-d Mann-Kendall driver calling the 1-d routine) is
+                # read as delegation by the rules that know the sibling
+                if nm_ != q and nm_ not in ref_calls[q] and nm_ not in helpers and _simple_helper(rec_[0]) is not None:
                     helpers[nm_] = rec_
         if not helpers:
             continue
